@@ -338,15 +338,20 @@ sexp sexp_bit_count (sexp ctx, sexp self, sexp_sint_t n, sexp x) {
   sexp res;
   sexp_sint_t i;
 #if SEXP_USE_BIGNUMS
-  sexp_uint_t count;
+  sexp_uint_t count, borrow, w;
 #endif
   if (sexp_fixnump(x)) {
     i = sexp_unbox_fixnum(x);
     res = sexp_make_fixnum(bit_count(i<0 ? ~i : i));
 #if SEXP_USE_BIGNUMS
   } else if (sexp_bignump(x)) {
-    for (i=count=0; i<(sexp_sint_t)sexp_bignum_length(x); i++)
-      count += bit_count(sexp_bignum_data(x)[i]);
+    /* for x < 0 count the ones of ~x, i.e. of the magnitude minus one */
+    borrow = (sexp_bignum_sign(x) < 0);
+    for (i=count=0; i<(sexp_sint_t)sexp_bignum_length(x); i++) {
+      w = sexp_bignum_data(x)[i];
+      count += bit_count(w - borrow);
+      borrow = (borrow && w == 0);
+    }
     res = sexp_make_fixnum(count);
 #endif
   } else {
